@@ -131,15 +131,16 @@ def run(ctx, r, ok, thorough):
             if flags[0] and not flags[1]:
                 flags[1] = True
             lib = libgen.gen_lib(r, name="fl%d" % i, options=dict(wrap_fortran=flags[0], wrap_c=flags[1], wrap_lua=flags[2], wrap_python=flags[3]))
-            # sprinkle per-declaration overrides
-            for d in lib.decls:
-                if r.random() < 0.3:
-                    d.setdefault("options", {})[r.choice(["wrap_c", "wrap_fortran", "wrap_python", "wrap_lua"])] = r.random() < 0.5
-                    if d["options"].get("wrap_fortran") and not d["options"].get("wrap_c", lib.options.get("wrap_c")):
-                        d["options"]["wrap_c"] = True
-                for sub in d.get("declarations", []):
-                    if r.random() < 0.2:
-                        sub.setdefault("options", {})[r.choice(["wrap_python", "wrap_lua"])] = r.random() < 0.5
+            # sprinkle per-declaration overrides at every depth
+            def sprinkle(decls, depth):
+                for d in decls:
+                    if r.random() < (0.3 if depth == 0 else 0.35):
+                        d.setdefault("options", {})[r.choice(["wrap_c", "wrap_fortran", "wrap_python", "wrap_lua"])] = r.random() < 0.6
+                        if d["options"].get("wrap_fortran") and not d["options"].get("wrap_c", lib.options.get("wrap_c")):
+                            d["options"]["wrap_c"] = True
+                    if "declarations" in d:
+                        sprinkle(d["declarations"], depth + 1)
+            sprinkle(lib.decls, 0)
             d = os.path.join(work, "fl%d" % i)
             os.makedirs(d)
             y = shroudrun.write_yaml(d, "fl%d.yaml" % i, lib.yaml())
@@ -155,6 +156,23 @@ def run(ctx, r, ok, thorough):
             impl.append(" ".join(calls))
             ctx.nontrivial(("promote", lib.yaml()))
             common.rmtree(d)
+        # fixed deep trees: only one function, three namespaces deep, switches a language on
+        for lang_opt in ("wrap_python", "wrap_lua", "wrap_c"):
+            txt = ("library: deep\ncxx_header: deep.hpp\noptions:\n  wrap_fortran: false\n  wrap_c: false\n  wrap_python: false\n  wrap_lua: false\n"
+                   "declarations:\n- decl: namespace outer\n  declarations:\n  - decl: int ofun(int a)\n  - decl: namespace middle\n    declarations:\n"
+                   "    - decl: namespace inner\n      declarations:\n      - decl: int ifun(int a)\n        options:\n          %s: true\n" % lang_opt)
+            d = os.path.join(work, "deep-" + lang_opt)
+            os.makedirs(d)
+            y = shroudrun.write_yaml(d, "deep.yaml", txt)
+            captured.clear()
+            del calls[:]
+            cfg, exc, out = shroudrun.run_inproc([y], d)
+            if exc is None and "before" in captured:
+                reqs.append("promote " + " ".join(captured["before"]))
+                impl.append(" ".join(captured["after"]))
+                reqs.append("run " + captured["after"][0])
+                impl.append(" ".join(calls))
+                ctx.nontrivial(("deep", lang_opt))
         # default clones: real has_default_args through generate on a tiny library
         for f, c in itertools.product((False, True), repeat=2):
             for nd in (1, 2, 3):
